@@ -295,18 +295,18 @@ pub fn run_irq_replay(args: &Args) -> Result<()> {
                     }
                 }
                 let reference = projection(&th.m, &prog);
-                // ---- a burst: far more requests than a small queue holds, raised while the first handler runs (I set);
+                // ---- a burst of 300: far more requests than a small (64 / 256 entry) queue holds, raised while the first handler runs (I set);
                 //      every one of them must be entered after the RTE (one history per thread and run)
                 if k == t && (regs.ccr & 0x80) == 0 {
                     th.load(&regs, &prog.pokes, Some(prog.done))?;
                     nh += 1;
                     th.request(vectors[0])?;
                     let mut okb = th.boundary()? == "ok" && th.step()? == "ok";
-                    for j in 0..70usize {
+                    for j in 0..300usize {
                         th.request(vectors[j % 3])?;
                     }
                     let mut g = 0;
-                    while okb && g < 6000 && (th.m.cpu.vh_pc() != prog.done || !th.m.cpu.vh_pending().is_empty()) {
+                    while okb && g < 30000 && (th.m.cpu.vh_pc() != prog.done || !th.m.cpu.vh_pending().is_empty()) {
                         okb = th.boundary()? == "ok" && th.step()? == "ok";
                         g += 1;
                     }
